@@ -128,7 +128,7 @@ if __name__ == '__main__':
     a = ap.parse_args()
     if a.silent_everywhere:
         props = ['C%02d' % i for i in range(1, 21) if i != 7]
-        vs = [dict(v, property=p, id=f"{v['id']}@{p}") for v in load_variants() if v['expect'] == 'silent' and (not a.id or a.id in v['id']) for p in props]
+        vs = [dict(v, property=p, id=f"{v['id']}@{p}") for v in load_variants() if v['expect'] == 'silent' and (not a.id or a.id in v['id']) for p in props if p not in v.get('not_for', [])]
         res = run_many(vs, a.repo)
         for r in res:
             if not r['ok']:
